@@ -41,7 +41,8 @@ def cases(draw, tier):
     extra = alpha + draw(st.sampled_from(["", "z", "Ж", "\U0001F601"]))
     test = draw(st.lists(st.one_of(st.text(alphabet=extra, max_size=max_len), st.sampled_from(train), st.just(""),
                                    st.text(alphabet=extra, min_size=1, max_size=1)), min_size=1, max_size=6))
-    return {"train": train, "test": test,
+    prior = draw(st.one_of(st.none(), st.lists(st.one_of(st.text(alphabet=extra, max_size=max_len), rep), min_size=1, max_size=4)))
+    return {"train": train, "test": test, "prior": prior,
             "max_vocab_size": draw(st.one_of(st.integers(1, 12), st.just(10000))),
             "min_token_occurrence": draw(st.integers(1, 3)),
             "max_char_code": draw(st.sampled_from([0, 0, 97, "ascii", "common", "bmp", "unicode"]))}
@@ -108,7 +109,18 @@ def check(case):
     site = "BytePairEncodingVectorizer"
     can_learn = learnable(train)
     r.label("mcc:%s" % case["max_char_code"], "cap:%s" % ("small" if case["max_vocab_size"] <= 12 else "large"))
-    est = L["BPE"](return_type="sequences", **kw)
+    prior = case.get("prior")
+
+    def make(return_type):
+        """an estimator that (history) may already have been fitted and used on another corpus"""
+        e_ = L["BPE"](return_type=return_type, **kw)
+        if prior and learnable(prior):
+            call(e_.fit_transform, list(prior))
+            call(e_.transform, list(prior))
+        return e_
+    if prior and learnable(prior):
+        r.label("refit-after-other-corpus")
+    est = make("sequences")
     s, enc = call(est.fit_transform, list(train))
     if s == "exc":
         if not can_learn:
@@ -174,7 +186,7 @@ def check(case):
     else:
         r.fail("not-reproducible", site + ".fit", "second fit raised %r" % enc4)
     # tokens / matrix views
-    tok = L["BPE"](return_type="tokens", **kw)
+    tok = make("tokens")
     s, t1 = call(tok.fit_transform, list(train))
     if s == "exc":
         r.fail(exc_kind(t1), site + "[tokens].fit_transform", exc_detail(t1))
@@ -188,7 +200,7 @@ def check(case):
                 r.fail(exc_kind(t2), site + "[tokens].transform", exc_detail(t2))
             elif [list(x) for x in t2] != [[token_of(c, model[0], model[2]) for c in e] for e in seqs_test]:
                 r.fail("tokens-view", site + "[tokens].transform", "tokens output is not the strings of the sequences output")
-    mat = L["BPE"](return_type="matrix", **kw)
+    mat = make("matrix")
     s, m1 = call(mat.fit_transform, list(train))
     if s == "exc":
         r.fail(exc_kind(m1), site + "[matrix].fit_transform", exc_detail(m1), all_empty=not any(train))
